@@ -256,7 +256,7 @@ fn batch(mode: &'static str, tier: &str) -> i32 {
         match (mode, tier) {
             ("c18", "thorough") => 200_000,
             ("c18", "smoke") => 300,
-            ("c18", _) => 3_000,
+            ("c18", _) => 5_000,
             (_, "thorough") => 30_000,
             (_, "smoke") => 100,
             _ => 1_000,
